@@ -3,6 +3,9 @@ import Clemens.Spec.FideSee
 /-
 C18 — arithmetic core of the static exchange evaluation (swap algorithm), independent of chess,
 and its tie to the model's `seeLoop` / `see`.
+
+The swap lemmas hold for arbitrary non-negative attacker values; about the generated `Gen.pieceValue` only
+`genPieceValue_nonneg` (every entry is ≥ 0) is used — a `decide`d inequality, not an equality with the current list.
 -/
 namespace Clemens
 
@@ -206,9 +209,18 @@ theorem seeLoop_eq' (p : Pos) (tgt : Nat) (maxXray : BB) (fuel : Nat) (st : SeeS
         simp only
         rw [ih st', seeNext_gains h]
 
-theorem pieceValue_nonneg (t : Nat) : 0 ≤ pieceValue t := by
-  unfold pieceValue Gen.pieceValue
-  rcases t with _|_|_|_|_|_|_ <;> simp
+/-- the only fact about the generated piece values that the C18 proofs use: no value is negative.  A `decide`d inequality over
+the generated list, re-evaluated on every run (no entry, no ordering and not the king's value is pinned). -/
+theorem genPieceValue_nonneg : ∀ x ∈ Gen.pieceValue, 0 ≤ x := by decide
+
+theorem getD_nonneg (l : List Int) (h : ∀ x ∈ l, 0 ≤ x) (t : Nat) : 0 ≤ l.getD t 0 := by
+  rw [List.getD_eq_getElem?_getD]
+  cases ht : l[t]? with
+  | none => simp
+  | some x => simpa using h x (List.mem_of_getElem? ht)
+
+theorem pieceValue_nonneg (t : Nat) : 0 ≤ pieceValue t :=
+  getD_nonneg Gen.pieceValue genPieceValue_nonneg t
 
 theorem attackerValues_nonneg (p : Pos) (tgt : Nat) (maxXray : BB) (fuel : Nat) (st : SeeState) :
     ∀ a ∈ attackerValues p tgt maxXray fuel st, 0 ≤ a := by
